@@ -118,7 +118,8 @@ def check(prop, tier, seed):
             return
         kh_dir, hs = K.prepare(scratch, cfg["kani"])
         sel = [h for h in hs if tier_ok(h.tier, tier)]
-        kr = K.run_harnesses(kh_dir, sel, jobs=jobs, timeout=3000 if tier == "thorough" else 1500)
+        kr = K.run_harnesses(kh_dir, sel, jobs=jobs, timeout=7200 if tier == "thorough" else 2400,
+                             harness_timeout=3000 if tier == "thorough" else 900)
         kres.update(kh_dir=kh_dir, hs=sel, kr=kr)
 
     def do_v():
